@@ -497,3 +497,17 @@ package interpreter
 //@   requires result != nil && future != nil
 //@   callpre (*interpreter.Future).Resolve arg0 == result && outErr(future) == nil && arg1 == outVal(future)
 //@   callpre (*interpreter.Future).Reject arg0 == result && outErr(future) != nil && errorCount == len(futures)
+// the combinator functions themselves settle nothing (except the empty-input rejection of Race and Any) and
+// cancel nothing: every outcome comes from the goroutines above, which wait for the inputs in order
+//@ func All
+//@   callpre (*interpreter.Future).Reject false
+//@   callpre (*interpreter.Future).Resolve false
+//@   callpre (*interpreter.Future).Cancel false
+//@ func Race
+//@   callpre (*interpreter.Future).Reject len(futures) == 0
+//@   callpre (*interpreter.Future).Resolve false
+//@   callpre (*interpreter.Future).Cancel false
+//@ func Any
+//@   callpre (*interpreter.Future).Reject len(futures) == 0
+//@   callpre (*interpreter.Future).Resolve false
+//@   callpre (*interpreter.Future).Cancel false
